@@ -22,6 +22,18 @@ CLAIMED = {
   text="Decides for the 18 AppModule Begin/EndBlock methods and every module function reachable from them without crossing a recovering frame (defer-recover, whoops.Try): each method returns only the nil error (one exemption with a checked side obligation); every explicit panic, panicking SDK conversion or division (Int.Int64/Uint64, MustFloat64, Quo*/Mod by a possibly-zero divisor, Must*/whoops.Assert), single-result type assertion, integer division by a non-constant, parallel-slice index and decremented slice index is dominated by the matching guard, auto-accepted (codec round trip, constant arguments) or individually triaged with a reason; unknown sites fail; the skyway recover frames are installed first. NOT decided: nil dereferences, general index-out-of-range, panics inside SDK callees, states unreachable through transactions.",
   technique="call-graph reachability with recover-frame cut + may-panic site enumeration + dominator guard matching + frozen triage table",
   ref="C09"),
+ "C05": dict(
+  text="Decides by access-path data-flow over the sibling pair keccak256 / VerifyAgainstTX of every action type: each message-relative path (action fields, fees and fee payer, message id, elected estimate, deadline, relayer) that influences the call data compared with the remote transaction also influences the Keccak256 input validators sign, plus the deployment id where the contract scheme has it; variable-length byte fields are not cut to a fixed width before signing; the batch checkpoint hash is influenced by token, receivers, amounts, nonce, timeout, relayer, gas estimate and turnstone id and every other batch field is classified; a new queued message's id comes only from IncrementNextID with one constant counter name (persisting last+1) and replacement requires the message to exist. NOT decided: injectivity of ABI packing and keccak (trusted), value-level equality of two encoders' arithmetic.",
+  technique="interprocedural access-path influence (backward data-flow on SSA) + sibling cross-check + writer/guard checks",
+  ref="C05"),
+ "C07": dict(
+  text="Decides for all five VerifyAgainstTX implementations, attestTransactionIntegrity, the five attesters, routerAttester and attestMessageWrapper: success returns only under bytes.Equal(tx.Data(), X) with X influenced by the frozen per-action field set (action fields, id/estimate, deadline, fees, fee payer, relayer, valset, signature prefix); the transaction is handed on only if unprocessed and verified; every success effect is dominated by the integrity check with the action's own verifier; dispatch on a TxExecutedProof happens only past the receipt-status gate and the transaction is marked processed by a deferred call registered first; the processed set has one key derivation, an unconditional membership test and no deletions; every proof field production code reads is covered by the evidence hash; the cache is flushed only for nil / not-verified / failed. NOT decided: go-ethereum decoding, that every non-matching tx fails beyond the byte-equality gate.",
+  technique="SSA dominator guards + access-path influence + must-pass-through + store writer sets + read-set vs hashed-set cross-check",
+  ref="C07"),
+ "C11": dict(
+  text="Decides for every implementor of the bridge-claim interface: each struct field that hand-written production code reads (outside hash / validation / voter identity) influences ClaimHash, or is voter identity / metadata, or the chain id bound through the attestation store prefix; no production code assigns a claim field after receipt; attestations are stored and loaded under GetStore(chain)+key(nonce, hash) with the claim's own values. NOT decided: collision resistance of the hash and ambiguity of the '/'-joined encoding.",
+  technique="read-set (type-resolved field loads / getter calls) vs hashed-set (access-path influence of the hash input) cross-check",
+  ref="C11"),
 }
 props = [json.loads(l) for l in open(os.path.join(ROOT, "properties.jsonl"))]
 PENDING = "structural rules designed in DESIGN.md but not yet built in this checkout"
